@@ -853,6 +853,55 @@ def _local_names(fn):
     return names - glob, glob
 
 
+IMMUTABLE_CALLS = {'re.compile', 'frozenset', 'tuple', 'str', 'int', 'float', 'bool', 'bytes', 'property', 'staticmethod',
+                   'classmethod', 'object'}
+MUTABLE_CALLS = {'list', 'dict', 'set', 'bytearray', 'OrderedDict', 'defaultdict', 'deque', 'Counter', 'ChainMap',
+                 'collections.OrderedDict', 'collections.defaultdict', 'collections.deque', 'collections.Counter'}
+
+
+def _mutability(v):
+    """of the initialiser of a name bound in a class body: 'mutable' | 'immutable' | 'unknown'"""
+    if isinstance(v, (ast.List, ast.Dict, ast.Set, ast.ListComp, ast.DictComp, ast.SetComp)): return 'mutable'
+    if isinstance(v, (ast.Constant, ast.JoinedStr, ast.Lambda, ast.GeneratorExp)): return 'immutable'
+    if isinstance(v, ast.Tuple):
+        return 'immutable' if all(_mutability(e) == 'immutable' for e in v.elts) else 'unknown'
+    if isinstance(v, ast.UnaryOp): return _mutability(v.operand)
+    if isinstance(v, ast.BinOp):
+        l, r = _mutability(v.left), _mutability(v.right)
+        if 'mutable' in (l, r): return 'mutable'       # `[…] + BASE`
+        return 'immutable' if l == r == 'immutable' else 'unknown'
+    if isinstance(v, ast.Call):
+        f = ast.unparse(v.func)
+        if f in MUTABLE_CALLS or f.endswith('.copy'): return 'mutable'
+        if f in IMMUTABLE_CALLS: return 'immutable'
+        return 'unknown'
+    return 'unknown'
+
+
+def _import_map(tree, rel):
+    """names imported into a module from inside the package: {'names': name -> (module path, original name),
+    'modules': name -> module path}; module paths are relative to the repository, without `.py`"""
+    pkg = rel.split('/')[:-1]                       # directory of the module
+    names, modules = {}, {}
+    for st in ast.walk(tree):
+        if isinstance(st, ast.ImportFrom):
+            if st.level:
+                base = pkg[:len(pkg) - (st.level - 1)]
+            elif st.module and st.module.split('.')[0] == 'markdown':
+                base = []
+            else: continue
+            mod = base + (st.module.split('.') if st.module else [])
+            for a in st.names:
+                nm = a.asname or a.name
+                names[nm] = ('/'.join(mod), a.name)              # `from ..blockprocessors import ListIndentProcessor`
+                modules[nm] = '/'.join(mod + [a.name])          # `from .. import util`
+        elif isinstance(st, ast.Import):
+            for a in st.names:
+                if a.name.split('.')[0] == 'markdown':
+                    modules[a.asname or a.name] = '/'.join(a.name.split('.'))
+    return {'names': names, 'modules': modules}
+
+
 def _flat_stmt(st):
     if isinstance(st, ast.For) and not st.orelse:
         return 'for %s in %s: %s' % (ast.unparse(st.target), ast.unparse(st.iter), '; '.join(_flat_stmt(b) for b in st.body))
@@ -874,6 +923,7 @@ class _FnWrites:
         a = fn.args
         self.params = set(x.arg for x in a.posonlyargs + a.args + a.kwonlyargs) | set(outer_params)
         self.inst = []      # (owner, attr, kind)
+        self.inst_ln = []   # (owner, attr, kind, line, written as `self.<attr>…` directly)
         self.shared = []    # target text
         self.fn = fn
         self.aliases = self._aliases(fn)
@@ -954,7 +1004,9 @@ class _FnWrites:
             return
         r = self._resolve(root, attrs)
         if r is None: return
-        if r[0] == 'inst': self.inst.append((r[1], r[2], kind))
+        if r[0] == 'inst':
+            self.inst.append((r[1], r[2], kind))
+            self.inst_ln.append((r[1], r[2], kind, getattr(node, 'lineno', 0), root == 'self' and root not in self.aliases))
         else: self.shared.append(r[1] + {'setitem': '[]', 'delitem': '[]'}.get(kind, '') +
                                  ('.%s()' % kind[5:] if kind.startswith('call:') else ''))
 
@@ -963,7 +1015,7 @@ class _FnWrites:
             if isinstance(c, (ast.FunctionDef, ast.AsyncFunctionDef)):
                 sub = _FnWrites(self.rel, self.cls, self.qual + '.<locals>.' + c.name, self.method, c, self.modnames,
                                 self.report, self.locals, self.params)
-                self.inst += sub.inst; self.shared += sub.shared
+                self.inst += sub.inst; self.shared += sub.shared; self.inst_ln += sub.inst_ln
                 continue
             if isinstance(c, ast.ClassDef):
                 self.report.append('translator-mismatch:census:class %s inside function %s %s' % (c.name, self.rel, self.qual))
@@ -1018,7 +1070,8 @@ def gen_census(src, report):
             return w
         def do_class(cd, prefix):
             qn = prefix + cd.name
-            info = {'bases': [ast.unparse(b) for b in cd.bases], 'body_names': set(), 'self_assigned': set(), 'methods': {}}
+            info = {'bases': [ast.unparse(b) for b in cd.bases], 'body_names': set(), 'body_init': {}, 'self_assigned': set(),
+                    'self_plain': {}, 'methods': {}}
             classes[(rel, qn)] = info
             for d in cd.decorator_list:
                 name = ast.unparse(d.func if isinstance(d, ast.Call) else d)
@@ -1027,9 +1080,13 @@ def gen_census(src, report):
             for st in cd.body:
                 if isinstance(st, ast.Assign):
                     for t in st.targets:
-                        if isinstance(t, ast.Name): info['body_names'].add(t.id)
+                        if isinstance(t, ast.Name):
+                            info['body_names'].add(t.id); info['body_init'][t.id] = _mutability(st.value)
+                        elif isinstance(t, (ast.Tuple, ast.List)):
+                            for e in t.elts:
+                                if isinstance(e, ast.Name): info['body_names'].add(e.id); info['body_init'][e.id] = 'unknown'
                 elif isinstance(st, ast.AnnAssign) and isinstance(st.target, ast.Name) and st.value is not None:
-                    info['body_names'].add(st.target.id)
+                    info['body_names'].add(st.target.id); info['body_init'][st.target.id] = _mutability(st.value)
                 elif isinstance(st, (ast.FunctionDef, ast.AsyncFunctionDef)):
                     w = do_function(st, qn, qn + '.' + st.name)
                     info['methods'][st.name] = (st, w)
@@ -1037,10 +1094,13 @@ def gen_census(src, report):
                         tg = []
                         if isinstance(n, ast.Assign): tg = n.targets
                         elif isinstance(n, (ast.AnnAssign, ast.AugAssign)): tg = [n.target]
+                        plain = isinstance(n, ast.Assign) or (isinstance(n, ast.AnnAssign) and n.value is not None)
                         for t in tg:
                             for e in (t.elts if isinstance(t, (ast.Tuple, ast.List)) else [t]):
                                 if isinstance(e, ast.Attribute) and isinstance(e.value, ast.Name) and e.value.id == 'self':
                                     info['self_assigned'].add(e.attr)
+                                    if plain:       # `self.X = …` (not `self.X += …`): (method, line)
+                                        info['self_plain'].setdefault(e.attr, []).append((st.name, n.lineno))
                     if st.name != '__init__':
                         for owner, attr, kind in w.inst:
                             inst_sites.append((owner, attr, kind, rel, qn + '.' + st.name, st.name))
@@ -1057,26 +1117,65 @@ def gen_census(src, report):
                     for h in getattr(st, 'handlers', []): do_body(h.body)
         do_body(tree.body)
 
-    # class-level state mutated in place through `self`: `self.X.append(…)` / `self.X[k] = v` where `X` is bound in the
-    # class body (of the class or of a base class in the package) and never assigned on `self`
-    def lineage(key, seen=()):
-        rel, qn = key
-        out = [key]
+    # the class hierarchy of the package: base-class expressions resolved through the imports of the defining module
+    imports = {rel: _import_map(src.tree(rel), rel) for rel in files}
+    def resolve_base(rel, expr):
+        """-> key (file, class) of a class of the package, or None (a class from outside the package)"""
+        expr = expr.split('[')[0]
+        parts = expr.split('.')
+        imp = imports[rel]
+        if len(parts) == 1:
+            if (rel, parts[0]) in classes: return (rel, parts[0])
+            if parts[0] in imp['names']:
+                mod, orig = imp['names'][parts[0]]
+                for cand in (mod + '.py', mod + '/__init__.py'):
+                    if (cand, orig) in classes: return (cand, orig)
+            return None
+        if parts[0] in imp['modules']:
+            mod = imp['modules'][parts[0]]
+            for cand in (mod + '.py', mod + '/__init__.py'):
+                if (cand, '.'.join(parts[1:])) in classes: return (cand, '.'.join(parts[1:]))
+            return None
+        if (rel, expr) in classes: return (rel, expr)       # nested class `Outer.Inner`
+        return None
+    hierarchy = []          # (class, file, base class, file of the base class | 'external')
+    parents = {}
+    for key in sorted(classes):
+        parents[key] = []
         for b in classes[key]['bases']:
-            b = b.split('[')[0].split('.')[-1]
-            cand = [(r, q) for (r, q) in classes if q == b]
-            cand = [k for k in cand if k[0] == rel] or cand
-            for k in cand[:1]:
-                if k not in seen: out += lineage(k, seen + (key,))
+            k = resolve_base(key[0], b)
+            if k is not None: parents[key].append(k)
+            hierarchy.append((key[1], key[0], b, k[0] if k is not None else 'external'))
+    def lineage(key, seen=()):
+        out = [key]
+        for k in parents[key]:
+            if k not in seen and k != key: out += [x for x in lineage(k, seen + (key,)) if x not in out]
         return out
+    descendants = {key: [k for k in classes if k != key and key in lineage(k)] for key in classes}
+
+    # class-level state mutated in place THROUGH `self`, in any method, `__init__` included:
+    # `self.X += …`, `self.X.append(…)`, `self.X[k] = …` where `X` is bound in the class body of the class, of a base
+    # class or of a subclass in the package (to something that is not evidently immutable), unless the object is
+    # instance-owned: `self.X = …` occurs in `__init__` of the class or of a base class, or earlier in the same method.
+    class_mutable = []      # (class, file, name, 'mutable' | 'unknown')
+    for key, info in sorted(classes.items()):
+        for nm, mk in sorted(info['body_init'].items()):
+            if mk != 'immutable': class_mutable.append((key[1], key[0], nm, mk))
     for key, info in sorted(classes.items()):
         lin = lineage(key)
-        body_names = set().union(*(classes[k]['body_names'] for k in lin))
-        self_assigned = set().union(*(classes[k]['self_assigned'] for k in lin))
+        def binder(attr):
+            for k in lin + sorted(descendants[key]):
+                if attr in classes[k]['body_init']: return k, classes[k]['body_init'][attr]
+            return None, None
         for mname, (st, w) in sorted(info['methods'].items()):
-            for owner, attr, kind in w.inst:
-                if owner == key[1] and kind != 'assign' and attr in body_names and attr not in self_assigned:
-                    shared.append((key[0], key[1] + '.' + mname, '%s.%s via self (%s)' % (key[1], attr, kind)))
+            for owner, attr, kind, line, direct in w.inst_ln:
+                if owner != key[1] or kind in ('assign', 'del'): continue
+                bk, mut = binder(attr)
+                if bk is None or mut == 'immutable': continue
+                owned = any(m == '__init__' for k in lin for (m, ln) in classes[k]['self_plain'].get(attr, []))
+                owned = owned or any(m == mname and ln < line for (m, ln) in info['self_plain'].get(attr, []))
+                if owned: continue
+                shared.append((key[0], key[1] + '.' + mname, '%s.%s via self (%s)' % (bk[1], attr, kind)))
 
     # reset(): what the methods named `reset` write, one call deep (`self.m()`, `super().reset()` inside the package)
     def reset_writes(key, mname, depth):
@@ -1159,7 +1258,7 @@ def gen_census(src, report):
     shared = sorted(set(shared)); memo = sorted(set(memo))
     reset_w = sorted(set(reset_w)); reset_other = sorted(set(reset_other)); reg_ext = sorted(set(reg_ext))
     digest = hashlib.sha256(repr((inst_sites_s, shared, memo, reset_w, reset_other, reset_calls, reg_ext, constructions,
-                                  called)).encode()).hexdigest()[:16]
+                                  called, sorted(hierarchy), class_mutable)).encode()).hexdigest()[:16]
 
     t = lambda *xs: '(' + ', '.join(lean_str(x) for x in xs) + ')'
     L = ['/- GENERATED by harness/translate.py from the working tree of the repository. Do not edit.',
@@ -1184,10 +1283,16 @@ def gen_census(src, report):
          'def registerExtensionCalls : List String := ' + lean_list([lean_str(x) for x in reg_ext], 4), '',
          '/-- (file, function, target): writes *inside function bodies* to module-level or class-level state — `global`\n'
          '    assignments, `Class.attr = …` / `module.attr = …` / `cls.attr = …`, item assignment or mutating calls on\n'
-         '    module-level names, in-place mutation through `self` of a name bound only in a class body -/',
+         '    module-level names, in-place mutation through `self` (`self.X += …`, `self.X.append(…)`, `self.X[k] = …`, in any\n'
+         '    method, `__init__` included) of a name `X` bound in a class body of the class, a base class or a subclass\n'
+         '    and not instance-owned (`self.X = …` in an `__init__` of the class or its bases, or earlier in the method) -/',
          'def sharedWrites : List (String × String × String) := ' + lean_list([t(*x) for x in shared], 1), '',
          '/-- (file, function, decorator): memoising decorators -/',
          'def memoDecorators : List (String × String × String) := ' + lean_list([t(*x) for x in memo], 1), '',
+         '/-- (class, file, base class as written, file that defines the base class | `external`) -/',
+         lean_big_def('classHierarchy', 'String × String × String × String', [t(*x) for x in sorted(hierarchy)], per_line=1), '',
+         '/-- (class, file, name, `mutable` | `unknown`): names bound in a class body to something not evidently immutable -/',
+         lean_big_def('classLevelMutable', 'String × String × String × String', [t(*x) for x in class_mutable], per_line=1), '',
          '/-- (class, file) of every class of the package -/',
          lean_big_def('classes', 'String × String', [t(*x) for x in class_list], per_line=2), '',
          '/-- (class, file, function): every place where a class of the package is instantiated (`<module>`: at import) -/',
@@ -1213,6 +1318,8 @@ def registerExtensionCalls : List String := []
 def sharedWrites : List (String × String × String) := [("?", "?", "census unavailable")]
 def memoDecorators : List (String × String × String) := []
 def classes : List (String × String) := []
+def classHierarchy : List (String × String × String × String) := []
+def classLevelMutable : List (String × String × String × String) := []
 def constructions : List (String × String × String) := []
 def calledNames : List String := []
 end MdVerif.Generated.Census
